@@ -207,6 +207,8 @@ def run_history(actions, prop='C02', init=None, chooser=None, n=0):
 
     for act in stream():
         act = dict(act)
+        if act['a'] == 'connect' and 'other' not in act:
+            act['other'] = LIB[act['lib'] - 1]
         step = {'act': act}
         try:
             c = apply(c, act)
